@@ -384,6 +384,7 @@ type c18Lease struct {
 	hasKA      bool
 	noticed    bool // keep-alive channel closed
 	noticeLog  bool // the lock history has its notice event
+	inPrefix   bool // enum leg: granted during the program's fixed prefix
 	ch         chan *clientv3.LeaseKeepAliveResponse
 	stop       chan struct{}
 	stopOnce   sync.Once
@@ -1960,6 +1961,63 @@ var c18Scripts = []c18Script{
 		s.do(cA, "release", 0)
 		s.notice(cA)
 	}},
+	{"acquire_response_held_across_session_rotation", func(s *c18Driver) {
+		// A's create-if-absent txn for r0 commits under its session S1 but the response is still on its way;
+		// S1 is lost (expiry, then notice: monitorSession drops it); an Acquire of ANOTHER resource on A brings
+		// up a replacement session S2; B takes the now free r0; only then does A see the response for r0
+		s.start(cA, "acquire", 0)
+		s.next(cA, "grant", c18OK)
+		s.next(cA, "txn", c18OKDelayed)
+		s.expire(cA)
+		s.notice(cA)
+		s.start(cA, "acquire", 1)
+		s.next(cA, "grant", c18OK)
+		s.next(cA, "txn", c18OK)
+		s.do(cB, "acquire", 0)
+		s.finish(cA) // the held response
+		s.do(cC, "acquire", 0)
+		s.do(cA, "acquire", 0)
+		s.do(cB, "release", 0)
+		s.do(cC, "acquire", 0)
+	}},
+	{"reacquire_response_held_across_session_rotation", func(s *c18Driver) {
+		// the same window on the reacquire path (restarted broker re-attaching its own key to the new session)
+		s.do(cA, "acquire", 0)
+		s.restart(cA)
+		s.start(cA, "acquire", 0)
+		s.next(cA, "grant", c18OK)
+		s.next(cA, "txn", c18OK)        // create-if-absent fails: the key names A
+		s.next(cA, "txn", c18OKDelayed) // value-compare txn re-attaches the key to S1'; response held
+		s.expire(cA)                    // the dead instance's lease and S1'
+		s.notice(cA)
+		s.start(cA, "acquire", 1)
+		s.next(cA, "grant", c18OK)
+		s.next(cA, "txn", c18OK)
+		s.do(cB, "acquire", 0)
+		s.finish(cA)
+		s.do(cC, "acquire", 0)
+		s.do(cA, "acquire", 0)
+	}},
+	{"acquire_response_held_across_early_notice_and_new_session", func(s *c18Driver) {
+		// the client gives up on S1 while its lease is still alive on the server; a replacement session comes up
+		// through another resource; the held response arrives; then the old lease expires and B acquires
+		s.start(cA, "acquire", 0)
+		s.next(cA, "grant", c18OK)
+		s.next(cA, "txn", c18OKDelayed)
+		s.notice(cA)
+		s.start(cA, "acquire", 1)
+		s.next(cA, "grant", c18OK)
+		s.next(cA, "txn", c18OK)
+		s.finish(cA)
+		for _, ls := range s.leasesOf(cA, func(l *c18Lease) bool { return l.noticed && !l.serverDead }) {
+			if s.w.ok() {
+				s.w.expire(ls)
+			}
+		}
+		s.do(cB, "acquire", 0)
+		s.do(cA, "acquire", 0)
+		s.do(cB, "acquire", 1)
+	}},
 	{"release_all_races_inflight_acquire", func(s *c18Driver) {
 		s.do(cA, "acquire", 0)
 		s.start(cA, "acquire", 1) // txn pending under the session that ReleaseAll is about to close
@@ -2140,7 +2198,7 @@ func (w *c18World) sample(rng interface {
 
 // ---------------------------------------------------------------------------
 
-const c18Rule = "real PartitionLeaseManager/GroupLeaseManager instances (3 broker ids, restarts) against one embedded etcd; every etcd request they issue (Grant, Txn, Delete, Revoke) is parked at a gate and released one at a time by the scheduler inside a synctest bubble, optionally failing before/after its effect; session loss is split into server-side expiry (harness revokes the lease) and client-side notice (harness closes the keep-alive channel). After EVERY step, once all manager goroutines are quiescent and a WithPrevKV watch on /kafscale/ has been synchronised (up to the response's header revision, or through a sentinel key after expiry/revoke): (a) violation if two brokers have Owns(r)==true and neither belief is excused; a belief is excused only while the etcd lease under which that broker's claim on r was written has expired on the server and the broker's keep-alive channel for it is still open (the window inherent to leases); if exactly one such firm believer exists while the etcd key is absent, one more broker P runs Acquire(r) and P succeeding is the same violation; (b) violation if a DELETE event of a lease key carries a previous value naming a broker other than the one whose Release/ReleaseAll/expiry step caused it. (c) per resource, the history of Acquire/Release/ReleaseAll calls (with results), expiry/notice/restart events and every Owns() observation is checked with porcupine against a lock model (a failing Acquire is always legal; Owns()==false gives the lock up; an expired-but-untold broker is excused). Scripted schedules (stale release, restart+reacquire, early notice, release racing own acquire, lost responses …) for both flavours, then PRNG schedules; non-trivial = a resource was held by two different brokers over the case and a release/expiry/restart/close occurred"
+const c18Rule = "real PartitionLeaseManager/GroupLeaseManager instances (3 broker ids, restarts) against one embedded etcd; every etcd request they issue (Grant, Txn, Delete, Revoke) is parked at a gate and released one at a time by the scheduler inside a synctest bubble, optionally failing before/after its effect; session loss is split into server-side expiry (harness revokes the lease) and client-side notice (harness closes the keep-alive channel). After EVERY step, once all manager goroutines are quiescent and a WithPrevKV watch on /kafscale/ has been synchronised (up to the response's header revision, or through a sentinel key after expiry/revoke): (a) violation if two brokers have Owns(r)==true and neither belief is excused; a belief is excused only while the etcd lease under which that broker's claim on r was written has expired on the server and the broker's keep-alive channel for it is still open (the window inherent to leases); if exactly one such firm believer exists while the etcd key is absent, one more broker P runs Acquire(r) and P succeeding is the same violation; (b) violation if a DELETE event of a lease key carries a previous value naming a broker other than the one whose Release/ReleaseAll/expiry step caused it. (c) per resource, the history of Acquire/Release/ReleaseAll calls (with results), expiry/notice/restart events and every Owns() observation is checked with porcupine against a lock model (a failing Acquire is always legal; Owns()==false gives the lock up; an expired-but-untold broker is excused). Scripted schedules (stale release, restart+reacquire, early notice, release racing own acquire, lost responses, and an acquire/reacquire txn whose response is held while the session it was made on is lost AND replaced through an Acquire of a second resource, before or after another broker takes the first …) for both flavours, then PRNG schedules; non-trivial = a resource was held by two different brokers over the case and a release/expiry/restart/close occurred"
 
 func TestVerifC18Sched(t *testing.T) {
 	r := verifkit.Start(t, "C18", "sched")
@@ -2224,6 +2282,16 @@ type c18EnumProg struct {
 	expire  int     // server-side expiries that may be placed (of any live lease)
 	notice  int     // notices that may be placed before the end (the rest are delivered when the case settles)
 	delayed bool    // every request may also take effect with its response delivered later
+	nres    int     // resources of the case (0 = 1)
+	// prefix runs before the enumeration starts (fixed moves that put the brokers into the state whose every
+	// continuation is then enumerated); requests/responses it leaves parked are ordinary choices afterwards
+	prefix func(s *c18Driver)
+	// prefixLeases: the expiry/notice budget applies only to leases granted during the prefix
+	prefixLeases bool
+	// noticeAfterExpiry: a notice is only placed for a lease that has already expired on the server
+	noticeAfterExpiry bool
+	// atomic: the broker's call runs to completion in ONE choice (its etcd requests are not interleaved)
+	atomic [3]bool
 }
 
 func (w *c18World) enumChoices(p *c18EnumProg, pc *[3]int, exp, noti *int) []func() {
@@ -2240,6 +2308,13 @@ func (w *c18World) enumChoices(p *c18EnumProg, pc *[3]int, exp, noti *int) []fun
 		switch {
 		case op.kind == "restart":
 			cs = append(cs, func() { pc[i]++; w.restart(i) })
+		case p.atomic[i]:
+			cs = append(cs, func() {
+				pc[i]++
+				if w.startOp(w.nodes[i], op.kind, op.res) {
+					(&c18Driver{w}).finish(i)
+				}
+			})
 		case p.overlap[i] || w.running(n) == 0:
 			cs = append(cs, func() { pc[i]++; w.startOp(w.nodes[i], op.kind, op.res) })
 		}
@@ -2262,14 +2337,15 @@ func (w *c18World) enumChoices(p *c18EnumProg, pc *[3]int, exp, noti *int) []fun
 		ls := ls
 		w.mu.Lock()
 		dead, ka, noticed, crashed, auto := ls.serverDead, ls.hasKA, ls.noticed, ls.owner.crashed, ls.owner.auto
+		inPrefix := ls.inPrefix
 		w.mu.Unlock()
-		if auto {
+		if auto || (p.prefixLeases && !inPrefix) {
 			continue
 		}
 		if *exp > 0 && !dead {
 			cs = append(cs, func() { *exp--; w.expire(ls) })
 		}
-		if *noti > 0 && ka && !noticed && !crashed {
+		if *noti > 0 && ka && !noticed && !crashed && (dead || !p.noticeAfterExpiry) {
 			cs = append(cs, func() { *noti--; w.notice(ls) })
 		}
 	}
@@ -2285,9 +2361,37 @@ var c18EnumProgs = []struct {
 	{"thorough", c18EnumProg{name: "A:acq,restart,acq|B:acq|1 expiry", ops: [3][]c18EnumOp{{{"acquire", 0}, {"restart", 0}, {"acquire", 0}}, {{"acquire", 0}}, nil}, expire: 1}},
 	{"thorough", c18EnumProg{name: "A:acq,(rel||acq)|B:acq", ops: [3][]c18EnumOp{{{"acquire", 0}, {"release", 0}, {"acquire", 0}}, {{"acquire", 0}}, nil}, overlap: [3]bool{true, false, false}}},
 	{"thorough", c18EnumProg{name: "A:acq,relall|B:acq|delayed responses", ops: [3][]c18EnumOp{{{"acquire", 0}, {"release_all", 0}}, {{"acquire", 0}}, nil}, delayed: true}},
+	// held response + session rotation + second resource: after the fixed prefix, every placement of
+	// {expiry of A's first lease, its notice, A's acquire of r1 (start, grant, txn), B's acquire of r0, delivery of the held response}
+	{"quick", c18EnumProg{name: "prefix[A:acq(r0) txn committed, response held]|A:acq(r1)|B:acq(r0) atomic|expiry then notice of A's first lease",
+		nres: 2, prefix: c18PrefixHeldAcquire, ops: [3][]c18EnumOp{{{"acquire", 1}}, {{"acquire", 0}}, nil},
+		overlap: [3]bool{true, false, false}, atomic: [3]bool{false, true, false}, expire: 1, notice: 1, prefixLeases: true, noticeAfterExpiry: true}},
+	{"thorough", c18EnumProg{name: "prefix[A:acq(r0) txn committed, response held]|A:acq(r1)|B:acq(r0) atomic|expiry, notice (also early) of A's first lease",
+		nres: 2, prefix: c18PrefixHeldAcquire, ops: [3][]c18EnumOp{{{"acquire", 1}}, {{"acquire", 0}}, nil},
+		overlap: [3]bool{true, false, false}, atomic: [3]bool{false, true, false}, expire: 1, notice: 1, prefixLeases: true}},
+	{"thorough", c18EnumProg{name: "prefix[A:acq(r0),restart,acq(r0): reacquire txn committed, response held]|A:acq(r1)|B:acq(r0) atomic|2 expiries, then notice, of A's leases",
+		nres: 2, prefix: c18PrefixHeldReacquire, ops: [3][]c18EnumOp{{{"acquire", 1}}, {{"acquire", 0}}, nil},
+		overlap: [3]bool{true, false, false}, atomic: [3]bool{false, true, false}, expire: 2, notice: 1, prefixLeases: true, noticeAfterExpiry: true}},
 }
 
-const c18EnumRule = "for each listed small program (per-broker call sequences over one resource, budgets of server-side expiries / notices), EVERY schedule — which broker starts its next call, which parked etcd request is executed next, where the expiry/notice is placed — is executed against fresh real managers by stateless depth-first search (a schedule = list of choice indices, re-executed from the start); oracles (a) (b) (c) of the sched leg run after every step; exhaustive=true when every program's tree was exhausted within the tier's cap"
+// c18PrefixHeldAcquire: A's create-if-absent txn for r0 has committed under A's first session; its response is parked.
+func c18PrefixHeldAcquire(s *c18Driver) {
+	s.start(cA, "acquire", 0)
+	s.next(cA, "grant", c18OK)
+	s.next(cA, "txn", c18OKDelayed)
+}
+
+// c18PrefixHeldReacquire: restarted A has re-attached its own key r0 to its new session; that txn's response is parked.
+func c18PrefixHeldReacquire(s *c18Driver) {
+	s.do(cA, "acquire", 0)
+	s.restart(cA)
+	s.start(cA, "acquire", 0)
+	s.next(cA, "grant", c18OK)
+	s.next(cA, "txn", c18OK)
+	s.next(cA, "txn", c18OKDelayed)
+}
+
+const c18EnumRule = "for each listed small program (per-broker call sequences over one resource, budgets of server-side expiries / notices), EVERY schedule — which broker starts its next call, which parked etcd request is executed next, where the expiry/notice is placed — is executed against fresh real managers by stateless depth-first search (a schedule = list of choice indices, re-executed from the start); a program may have a fixed prefix (e.g. A's acquire txn of r0 committed, its response parked) after which every continuation is enumerated over two resources: A's acquire of r1 step by step, B's acquire of r0 as one step, delivery of the parked response, expiry and notice of the prefix's lease(s); oracles (a) (b) (c) of the sched leg run after every step; exhaustive=true when every program's tree was exhausted within the tier's cap"
 
 func TestVerifC18Enum(t *testing.T) {
 	r := verifkit.Start(t, "C18", "enum")
@@ -2304,7 +2408,7 @@ func TestVerifC18Enum(t *testing.T) {
 		}
 		p := ep.p
 		for _, fl := range []string{"partition", "group"} {
-			if fl == "group" && (!r.Thorough() || p.expire+p.notice > 1 || strings.Contains(p.name, "restart") || p.delayed) {
+			if fl == "group" && (!r.Thorough() || p.expire+p.notice > 1 || strings.Contains(p.name, "restart") || p.delayed || p.prefix != nil) {
 				continue // same LeaseManager code behind a different prefix: the big trees are enumerated for one flavour
 			}
 			var path []int
@@ -2313,10 +2417,22 @@ func TestVerifC18Enum(t *testing.T) {
 			for count < limit {
 				var widths []int
 				synctest.Test(t, func(t *testing.T) {
-					w := e.newWorld(fl, "enum:"+p.name, 1)
+					nres := p.nres
+					if nres == 0 {
+						nres = 1
+					}
+					w := e.newWorld(fl, "enum:"+p.name, nres)
 					defer w.cleanup()
 					var pc [3]int
 					exp, noti := p.expire, p.notice
+					if p.prefix != nil {
+						p.prefix(&c18Driver{w})
+						w.mu.Lock()
+						for _, ls := range w.leases {
+							ls.inPrefix = true
+						}
+						w.mu.Unlock()
+					}
 					for d := 0; d < 200 && w.ok(); d++ {
 						cs := w.enumChoices(&p, &pc, &exp, &noti)
 						if len(cs) == 0 {
